@@ -451,3 +451,57 @@ def closure_captures(fn, closure_operand):
         pl = op_place(op)
         caps.append(norm_path(fn.apath(pl)) if pl is not None else None)
     return sd[2][1][1], caps
+
+
+# --------------------------------------------------------------------------------------
+# loops (`for` desugaring: a call of Iterator::next whose Option result is switched on)
+
+
+def loop_headers(fn):
+    """{header_block: (some_target, none_target, next_call)} for every `for`-style loop"""
+    import re
+
+    out = {}
+    for c in fn.live_calls():
+        if re.search(r"Iterator>::next$|Iterator::next$", c.name):
+            r = branch_on_enum_call(fn, c)
+            if r is None:
+                continue
+            info, _sb = r
+            e = info["edges"]
+            if "Some" in e:
+                out[c.block] = (e["Some"], e.get("None", info.get("rest")), c)
+    return out
+
+
+def loop_body(fn, header, headers=None):
+    headers = headers or loop_headers(fn)
+    some = headers[header][0]
+    body = fn.reachable_blocks([some], avoid=[header])
+    # only blocks that can come back to the header belong to the body proper
+    return body
+
+
+def enclosing_loop(fn, b, headers=None):
+    """innermost loop header whose body contains block b (and from which b can return to it)"""
+    headers = headers or loop_headers(fn)
+    best = None
+    for h in headers:
+        body = loop_body(fn, h, headers)
+        if b in body and h in fn.reachable_blocks([b]):
+            if best is None or len(body) < best[1]:
+                best = (h, len(body))
+    return best[0] if best else None
+
+
+def loop_over(fn, path_re, headers=None):
+    """headers of the loops whose iterator derives from an access path matching path_re"""
+    import re
+
+    headers = headers or loop_headers(fn)
+    out = []
+    for h, (_s, _n, nxt) in sorted(headers.items()):
+        paths, _ = derives(fn, nxt.args[0])
+        if any(re.search(path_re, p) for p in paths):
+            out.append(h)
+    return out
